@@ -158,3 +158,11 @@ Definition msg_view (d:msg_desc) (m:msg) : list fval * list fval :=
       (map (fun x => ref_view x (field_val m x)) (filter (fun x => negb (nf_opt x)) nf),
        map (fun x => if fv_present (field_val m x) then ref_view x (field_val m x) else absent) (filter nf_opt nf))
   | None => ([], []) end.
+
+(* message types whose table has no uncertain row and no recorded deviation: field-by-field agreement *)
+Definition dispatched_pairs : list (N * N * msg_desc * msg_table) :=
+  flat_map (fun h => flat_map (fun e => match find_desc d_dec_func (snd (snd e)) all_msg_descs, find_table (epd_of_table h) (fst e) with
+                                        | Some d, Some t => [(epd_of_table h, fst e, d, t)] | _, _ => [] end) (h_decode h))
+           [gmm_dispatch; gsm_dispatch].
+Definition strict_pairs : list (N * N * msg_desc * msg_table) :=
+  filter (fun p => let '(_, _, d, t) := p in layout_strict d t && desc_pair_ok d) dispatched_pairs.
